@@ -182,6 +182,9 @@ func (s *Server) cmdStream(db int, name string, argv [][]byte) []byte {
 				if !ok {
 					return rErr("ERR value is not an integer or out of range")
 				}
+				if n < 0 {
+					return rErr("ERR entries_added must be positive")
+				}
 				st.Added = n
 			case "maxdeletedid":
 				mid, ok := parseStreamID(a[i+1])
@@ -214,11 +217,22 @@ func (s *Server) cmdStream(db int, name string, argv [][]byte) []byte {
 				case "mkstream":
 					mk = true
 				case "entriesread":
-					if i+1 < len(a) {
-						n, _ := parseInt(a[i+1])
-						entriesRead = n
-						i++
+					// t_stream.c xgroupCommand: getLongLongFromObjectOrReply (signed 64-bit), then
+					// "entries_read < 0 && entries_read != SCG_INVALID_ENTRIES_READ" is refused
+					if i+1 >= len(a) {
+						return rErr("ERR syntax error")
 					}
+					n, ok := parseInt(a[i+1])
+					if !ok {
+						return rErr("ERR value is not an integer or out of range")
+					}
+					if n < 0 && n != -1 {
+						return rErr("ERR value for ENTRIESREAD must be positive or -1")
+					}
+					entriesRead = n
+					i++
+				default:
+					return rErr("ERR syntax error")
 				}
 			}
 			v := s.lookup(db, string(a[1]))
